@@ -71,6 +71,20 @@ INT_FIELDS = {'island', 'source', 'flags'}
 STR_FIELDS = {'ra_str', 'dec_str', 'uuid'}
 
 
+_SUB = {}
+
+
+def subclasses():
+    """user-defined subclasses of the three source classes (letters c, i, s in a catalogue spec): instances ARE
+    components / islands / simple sources (`isinstance`), with an extra attribute and method of their own"""
+    if not _SUB:
+        cl = classes()
+        for L, base in cl.items():
+            _SUB[L.lower()] = type('User' + base.__name__, (base,),
+                                   {'survey': 'verif', 'tag': lambda self: (self.survey, self.uuid)})
+    return _SUB
+
+
 def classes():
     import logging
     logging.getLogger('Aegean').setLevel(logging.CRITICAL)
@@ -144,10 +158,10 @@ def build(cat_spec):
         if letter == 'O':
             out.append(object())
             continue
-        s = cl[letter]()
+        s = cl[letter]() if letter in cl else subclasses()[letter]()
         for k, e in attrs.items():
             setattr(s, k, dec(e))
-        if letter == 'I':
+        if letter.upper() == 'I':
             s.extent = (1, 3, 2, 5)
             s.max_angular_size_anchors = [1, 2, 3, 4]
             s.contour = [(1, 1), (1, 2), (2, 2)]
@@ -213,7 +227,7 @@ def rand_source(rng, letter, idx, profile):
     if letter == 'O':
         return ['O', None]
     cl = classes()
-    names = cl[letter].names
+    names = cl[letter.upper()].names
     attrs = {}
     f32cols = profile.get('f32cols', ())
     for n in names:
@@ -275,7 +289,7 @@ def gen_catalogue(rng, nrows, mix, profile):
     if profile.get('atypical') and cat:
         first_of = {}
         for k, (letter, _) in enumerate(cat):
-            first_of.setdefault(letter, k)
+            first_of.setdefault(letter.upper(), k)
         for letter, k in first_of.items():
             if letter != 'O':
                 cat[k] = atypical_first(rng, cat[k])
@@ -470,7 +484,7 @@ def real_roundtrip(ctx, case, root):
         fails.append(('argument-mutated', mutated, {}))
     root_, ext_ = os.path.splitext(fn)
     present_all = sorted(os.listdir(d))
-    by_letter = {L: [k for k, (l, _) in enumerate(cat_spec) if l == L] for L in 'CIS'}
+    by_letter = {L: [k for k, (l, _) in enumerate(cat_spec) if l.upper() == L] for L in 'CIS'}   # c, i, s: subclass instances
     if ext in DB_EXTS:
         want = [os.path.basename(fn)]
     elif ext in ('ann', 'reg'):
@@ -622,7 +636,9 @@ def model_lines(case, fn):
         if letter == 'O':
             toks.append('O:')
         else:
-            toks.append(letter + ':' + ','.join(cell_token(attrs[n]) for n in cl[letter].names))
+            # an instance of a user subclass is, for the model, an instance of its library base class (`isinstance`;
+            # gen_classify_subclasses is the obligation that the code dispatches that way)
+            toks.append(letter.upper() + ':' + ','.join(cell_token(attrs[n]) for n in cl[letter.upper()].names))
     lines.append(f"cat {writer} {hexs(fn)} {pre} 0 0 " + ' '.join(toks))
     return lines
 
@@ -705,7 +721,7 @@ def nontrivial_key(case):
     cat = case['catalog']
     if len(cat) < 2:
         return None
-    letters = {l for l, _ in cat if l != 'O'}
+    letters = {l.upper() for l, _ in cat if l != 'O'}
     feats = len(letters) >= 2
     lens = {}
     for l, a in cat:
@@ -735,7 +751,8 @@ def summarise(case):
 def signature(case, what, extra):
     sig = dict(site='catalogs.save_catalog/load_table', what=what, ext=case['ext'], prefix=case['prefix'] is not None,
                second_write=bool(case.get('history')), container=case.get('container') or 'list',
-               same_stat_rewrite=bool(case.get('same_mtime')), debug_logging=bool(case.get('debug')))
+               same_stat_rewrite=bool(case.get('same_mtime')), debug_logging=bool(case.get('debug')),
+               subclass_instances=any(l in 'cis' for l, _ in case['catalog']))
     sig.update({k: v for k, v in extra.items() if k not in ('row', 'attr')})
     return sig
 
@@ -825,6 +842,8 @@ def run_cases(ctx, cases, do_shrink=True):
                 ctx.fail('corr', rec, f"{case['ext']}: {detail}", dict(site='model', what=what, ext=case['ext']))
         if case.get('history'):
             ctx.count('history-step')
+        if any(l in 'cis' for l, _ in case['catalog']):
+            ctx.count('subclass-instances')
         if case.get('container'):
             ctx.count('container:' + case['container'])
         if case.get('debug'):
@@ -855,7 +874,7 @@ def S(letter, **kw):
     """hand-written source for the corpus"""
     cl = classes()
     base = {}
-    for n in cl[letter].names:
+    for n in cl[letter.upper()].names:
         if n in INT_FIELDS:
             base[n] = 1
         elif n in ('ra_str',):
@@ -888,6 +907,10 @@ def corpus_cases():
         'ints-first': [S('C', peak_flux=2, int_flux=3, err_ra=-1, island=1), S('C', peak_flux=2.5, err_ra=0.25, island=2)],
         'mixed': [S('S', island=0), S('C', island=1), S('I', island=2), S('C', island=3, source=1), ['O', None],
                   S('I', island=4), S('S')],
+        # instances of user-defined subclasses of the three source classes, alone and next to base-class instances
+        'subclasses': [S('c', island=1, uuid='sub-c1'), S('i', island=2, uuid='sub-i1'), S('s', uuid='sub-s1'),
+                       S('C', island=3), S('c', island=4, uuid='sub-c2')],
+        'subclasses-only-one-type': [S('i', island=2, uuid='sub-i1'), S('i', island=5, uuid='sub-i2')],
         'single-default-like': [S('C', ra_str='', dec_str='', peak_flux=nan, int_flux=nan, a=nan, b=nan, pa=nan)],
         'extreme': [S('C', peak_flux=1e300, int_flux=-1e-300, a=5e-324, b=float('inf'), island=-7),
                     S('C', peak_flux=-0.0, int_flux=1 / 3, island=2 ** 31 - 1)],
@@ -896,12 +919,13 @@ def corpus_cases():
     for name, cat in cats.items():
         for ext in ALL_EXTS:
             for prefix in (None, 'pre'):
-                if prefix and name not in ('first-row-shorter', 'short-uuid-first', 'nan-and-minus-one', 'mixed'):
+                if prefix and name not in ('first-row-shorter', 'short-uuid-first', 'nan-and-minus-one', 'mixed', 'subclasses'):
                     continue
                 out.append(make_case(None, cat, ext, stem='corpus_' + name.replace('-', '_'), prefix=prefix,
                                      meta_i=2 if prefix else 0))
     for ext in ('ann', 'reg'):
         out.append(make_case(None, cats['mixed'], ext, stem='corpus_mixed'))
+        out.append(make_case(None, cats['subclasses'], ext, stem='corpus_subclasses'))
         out.append(make_case(None, [S('S'), S('S', ra=nan)], ext, stem='corpus_simples'))
     # corpus/C18/*.json: further minimised failures recorded by hand
     cdir = os.path.join(common.VERIF, 'corpus', 'C18')
@@ -919,7 +943,7 @@ def random_cases(ctx, n_cats, max_rows, exts):
     for k in range(n_cats):
         r = rng.random()
         nrows = 1 if r < 0.08 else (rng.randint(2, 12) if r < 0.55 else rng.randint(13, max_rows))
-        mix = rng.choice(['C', 'C', 'CI', 'CIS', 'CCCIS', 'IS', 'I', 'S', 'CISO'])
+        mix = rng.choice(['C', 'C', 'CI', 'CIS', 'CCCIS', 'IS', 'I', 'S', 'CISO', 'CcIiSs', 'cis', 'Cc', 'ciO'])
         profile = dict(atypical=rng.random() < 0.5, empty_str=rng.choice([0, 0, 0.1]), nan=rng.choice([0.0, 0.08, 0.3]),
                        nan_counts=rng.random() < 0.3, pyint=rng.random() < 0.7,
                        f32cols=rng.choice([(), ('background', 'local_rms'), ('background',)]))
@@ -956,7 +980,7 @@ def history_cases(ctx, n_hist, max_rows, exts):
         for mix, n in zip(seq, sizes):
             cat = gen_catalogue(rng, max(n, len(mix)), mix, profile)
             for j, L in enumerate(mix):                       # every class of the mix really occurs
-                if L != 'O' and not any(s[0] == L for s in cat):
+                if L != 'O' and not any(s[0] == L for s in cat):  # exact letter: a subclass letter must occur too
                     cat[j % len(cat)] = rand_source(rng, L, j + 1, profile)
             cats.append(cat)
         for ext in exts:
@@ -1034,9 +1058,9 @@ def container_cases(ctx, n_cats, max_rows, exts):
     rng = ctx.rng
     cases = []
     for k in range(n_cats):
-        cat = gen_catalogue(rng, rng.randint(3, max_rows), 'CIS', dict(atypical=rng.random() < 0.3, nan=0.05))
+        cat = gen_catalogue(rng, rng.randint(3, max_rows), 'CIS' if k % 2 == 0 else 'CIScis', dict(atypical=rng.random() < 0.3, nan=0.05))
         for j, L in enumerate('CIS'):
-            if not any(s_[0] == L for s_ in cat):
+            if not any(s_[0].upper() == L for s_ in cat):
                 cat[j] = rand_source(rng, L, j + 1, {})
         for ext in exts:
             for container in CONTAINERS[1:]:
@@ -1145,7 +1169,7 @@ def check_generated(ctx):
             lines.append(f"gen sql {t}")
             want.append(str(ns['sql_type'](t)))
     if status.get('classifyWhich') == 'translated':
-        for c in range(5):
+        for c in range(9):
             lines.append(f"gen cls {c}")
             want.append(str(ns['classify_which'](c)))
     outs = ctx.driver.batch(lines)
@@ -1157,7 +1181,8 @@ def check_generated(ctx):
     # the regenerated classify table against the real function on one object of every class
     from AegeanTools.models import classify_catalog
     cl = classes()
-    objs = {0: object(), 1: cl['S'](), 2: cl['I'](), 3: cl['C']()}
+    sub = subclasses()
+    objs = {0: object(), 1: cl['S'](), 2: cl['I'](), 3: cl['C'](), 4: sub['s'](), 5: sub['i'](), 6: sub['c']()}
     outs = ctx.driver.batch([f"gen cls {c}" for c in objs])
     for (c, o), ans in zip(objs.items(), outs):
         got = [k + 1 for k, lst in enumerate(classify_catalog([o])) if len(lst)]
